@@ -170,7 +170,10 @@ class StorageKeyFormingConvention(CollisionEvadingConvention):
         else:
             suffix = self.make_suffix(safe_key)
 
-        full_key = f'{prefix}{safe_key[:max_length - len(prefix) - len(suffix)]}{suffix}'
+        # With lengthy prefixes, nothing is left for the key itself: keep only the hash (with no leading dashes or dots).
+        key_limit = max(0, max_length - len(prefix) - len(suffix))
+        suffix = suffix if key_limit > 0 else suffix.lstrip('-.')
+        full_key = f'{prefix}{safe_key[:key_limit]}{suffix}'
         return full_key
 
     def make_v2_key(self, key: str, max_length: int = 63) -> str:
